@@ -112,3 +112,13 @@ Theorem C07_old_identity_packing_changes_values_refuted :
   unpack_elem_old I4 None (Some (I2, Fin 0)) (Fin 70000) = Fin 4464 /\
   unpack_elem I4 None (Some (I2, Fin 0)) (Fin 70000) = Fin 70000.
 Proof. vm_compute. repeat split; reflexivity. Qed.
+
+(* before handoff/C07-fix3-2.diff: a zero-dimensional big-endian int64 variable with
+   _Unsigned read through the netCDF4 library (value in native order, attribute values created
+   big-endian and viewed natively): the default fill value was compared byte-swapped, so the
+   never-written value was presented as data. *)
+Theorem C07_old_attribute_view_other_order_refuted :
+  attr_view BE LE I8 (Fin (default_fill I8)) <> vw I8 true (Fin (default_fill I8)) /\
+  attr_view BE LE I8 (Fin (default_fill I8)) = Fin 144115188075856000 /\
+  attr_view LE LE I8 (Fin (default_fill I8)) = vw I8 true (Fin (default_fill I8)).
+Proof. vm_compute. repeat split; try reflexivity. discriminate. Qed.
